@@ -109,6 +109,30 @@ func compare(k *kindDef, a, b *item) (differs bool, da, db []byte, err error) {
 	return differs, da, db, err2
 }
 
+// compareAll evaluates every candidate pair; the obligation's digests differ iff they differ for every candidate.
+// The recorded detail / digests are those of the first candidate that was NOT separated (or of the first candidate).
+func compareAll(k *kindDef, cs []cand, o *outcome) {
+	o.differs = true
+	for i, c := range cs {
+		d, da, db, err := compare(k, c.a, c.b)
+		if err != nil {
+			o.res = "err:" + err.Error()
+			o.differs = false
+			return
+		}
+		if i == 0 || (!d && o.differs) {
+			o.baseHex, o.pertHex, o.detail = short(da), short(db), c.note
+		}
+		if !d {
+			o.differs = false
+		}
+	}
+	if len(cs) == 0 {
+		o.res = "err:no candidate pair"
+		o.differs = false
+	}
+}
+
 func runCheck(kinds map[string]*kindDef, a checkArgs) outcome {
 	o := outcome{seen: []string{}, res: "ok"}
 	fields := append([]string{}, a.Fields...)
@@ -123,18 +147,12 @@ func runCheck(kinds map[string]*kindDef, a checkArgs) outcome {
 			o.res = "err:unknown kind " + fields[0]
 			return o
 		}
-		x, y, note, err := crossPair(fields[0], fields[1])
+		cs, err := crossPairs(fields[0], fields[1])
 		if err != nil {
 			o.res = "err:" + err.Error()
 			return o
 		}
-		d, da, db, err := compare(k, x, y)
-		if err != nil {
-			o.res = "err:" + err.Error()
-			return o
-		}
-		o.differs, o.baseHex, o.pertHex = d, short(da), short(db)
-		o.detail = note
+		compareAll(k, cs, &o)
 		return o
 	}
 	k, ok := kinds[a.Kind]
@@ -143,10 +161,9 @@ func runCheck(kinds map[string]*kindDef, a checkArgs) outcome {
 		return o
 	}
 	o.seen = seenOf(k)
-	var x, y *item
 	switch a.Mode {
 	case "subst":
-		x, y = k.base(), k.base()
+		x, y := k.base(), k.base()
 		var ds []string
 		for _, f := range fields {
 			v, ok := k.alt[f]
@@ -162,24 +179,17 @@ func runCheck(kinds map[string]*kindDef, a checkArgs) outcome {
 			}
 			ds = append(ds, f+":="+show(v))
 		}
-		o.detail = strings.Join(ds, "; ")
+		compareAll(k, []cand{{x, y, strings.Join(ds, "; ")}}, &o)
 	case "shift":
 		mk, ok := k.shift[strings.Join(fields, ",")]
 		if !ok {
 			o.res = "err:no boundary-moving pair for " + strings.Join(fields, ",")
 			return o
 		}
-		x, y, o.detail = mk()
+		compareAll(k, mk(), &o)
 	default:
 		o.res = "err:unknown mode " + a.Mode
-		return o
 	}
-	d, da, db, err := compare(k, x, y)
-	if err != nil {
-		o.res = "err:" + err.Error()
-		return o
-	}
-	o.differs, o.baseHex, o.pertHex = d, short(da), short(db)
 	return o
 }
 
